@@ -75,8 +75,35 @@ theorem decNumStreams_ev (h : Evolves P N a s.store) (id : Nat) : Evolves P N a 
   unfold Streams.decNumStreams; ev
 macro_rules | `(tactic| ev_step) => `(tactic| with_reducible apply decNumStreams_ev)
 
+theorem isReleased_removable {st : Stream} (h : st.isReleased = true) : Removable st := by
+  unfold Stream.isReleased Stream.isClosed at h
+  simp only [Bool.and_eq_true] at h
+  exact List.isEmpty_iff.mp h.1.1.1.1.1.1.1.1.2
+
 theorem transitionAfter_ev (h : Evolves P N a s.store) (id : Nat) (b : Bool) : Evolves P N a (s.transitionAfter id b).store := by
-  unfold Streams.transitionAfter; ev
+  unfold Streams.transitionAfter
+  ev
+  all_goals
+    refine Evolves.remove ?_ _ ?hD
+    case hD =>
+      intro st hg
+      simp only [crp_store] at hg
+      first
+      | (rw [Store.get?_mod' _ _ _ (fun _ => rfl), if_pos rfl] at hg
+         rename_i hrel _
+         simp only [crp_store] at hrel
+         cases hg0 : Store.get? _ id with
+         | none => rw [hg0] at hg; cases hg
+         | some st0 =>
+           rw [hg0] at hg; simp only [Option.map_some, Option.some.injEq] at hg
+           rw [Store.getD'_of_get? hg0] at hrel
+           have := isReleased_removable hrel
+           subst hg; exact this)
+      | (rename_i hrel _
+         simp only [crp_store] at hrel
+         rw [Store.getD'_of_get? hg] at hrel
+         exact isReleased_removable hrel)
+    ev
 macro_rules | `(tactic| ev_step) => `(tactic| with_reducible apply transitionAfter_ev)
 
 theorem scheduleSend_ev (h : Evolves P N a s.store) (id : Nat) : Evolves P N a (s.scheduleSend id).store := by
